@@ -20,10 +20,11 @@ func init() {
 
 func runC17(c *core.Ctx) {
 	runFixtures(c, "nilguard", "pool")
-	c.Explain("Structural clauses of C17 decided from source: (R17.1) for every pointer field of a struct that some method assigns nil (the closed mark of keyvalue.file), every dereference of that field in every other method — including promoted fields/methods of the embedded pointer — is dominated by a non-nil test of the field, directly or at every call site of an unexported helper; (R17.2) every type implementing io/fs.File has a closed state: Close writes a receiver field or delegates to an inner handle's Close, and every other exported method tests that field before its first effect or delegates to the inner handle; (R17.3) the failing side of each closed-guard returns an ErrClosed-class error; (R17.4) every store write-back reachable from a File method happens in a transaction that first looks the path up and skips the write when it no longer exists; (R17.5) path-sensitive form of R17.2: in every exported method of every File type, each return with a nil error lies on a path that loaded the closed mark / inner handle or called another method of the same receiver — a fast path that answers before the check (an empty buffer, a cached value) succeeds on a closed handle; (R17.6) no value of a type implementing io/fs.File is put into a sync.Pool (a recycled struct makes a closed handle work again and lets it move another handle's position). NOT claimed: independence of offsets between handles over histories (the offset is a per-handle struct field, inventoried only), equality of the error with os.File's for each call.")
+	c.Explain("Structural clauses of C17 decided from source: (R17.1) for every pointer field of a struct that some method assigns nil (the closed mark of keyvalue.file), every dereference of that field in every other method — including promoted fields/methods of the embedded pointer — is dominated by a non-nil test of the field, directly or at every call site of an unexported helper; (R17.2) every type implementing io/fs.File has a closed state: Close writes a receiver field or delegates to an inner handle's Close, and every other exported method tests that field before its first effect or delegates to the inner handle; (R17.3) the failing side of each closed-guard returns an ErrClosed-class error; (R17.4) every store write-back reachable from a File method happens in a transaction that first looks the path up and skips the write when it no longer exists; (R17.5) path-sensitive form of R17.2: in every exported method of every File type, each return with a nil error lies on a path that loaded the closed mark / inner handle or called another method of the same receiver — a fast path that answers before the check (an empty buffer, a cached value) succeeds on a closed handle; (R17.6) no value of a type implementing io/fs.File is put into a sync.Pool (a recycled struct makes a closed handle work again and lets it move another handle's position); (R17.7) no method of the OS-backed File type calls a path-taking function of package os (os.Chmod, os.Stat…): after Close the handle's methods fail with ErrClosed, while a by-name fallback would succeed and act on whatever file has that name now. NOT claimed: independence of offsets between handles over histories (the offset is a per-handle struct field, inventoried only), equality of the error with os.File's for each call.")
 	c.Assume("A6: partial correctness", "closers are not invoked from within other methods of the same handle (checked: no static call to a closer from a sibling method)")
 	c.RuleDoc("R17.1", "nullable pointer field: every dereference guarded by a dominating non-nil test")
 	c.RuleDoc("R17.5", "every success return of a handle method lies on a path that consulted the closed mark or delegated")
+	c.RuleDoc("R17.7", "methods of the OS-backed file act through the held *os.File only")
 	c.RuleDoc("R17.6", "handle values are never recycled through a pool")
 	c.RuleDoc("R17.2", "every File type has a closed state that every method consults or delegates")
 	c.RuleDoc("R17.3", "closed-guard failing edge returns ErrClosed-class error")
@@ -33,6 +34,7 @@ func runC17(c *core.Ctx) {
 		r17Nullable(c, p)
 		r17ClosedState(c, p)
 		r17NoPool(c, p, p.SrcFuncs())
+		r17HandleOnly(c, p)
 		if p.Target == load.Linux {
 			r17WriteBack(c, p)
 		}
@@ -40,6 +42,7 @@ func runC17(c *core.Ctx) {
 	c.Floor("R17.1", 10)
 	c.Floor("R17.2", 5)
 	c.Floor("R17.5", 30)
+	c.Floor("R17.7", 10)
 	c.Floor("R17.3", 8)
 	c.Floor("R17.4", 1)
 }
@@ -482,12 +485,12 @@ func r17ClosedState(c *core.Ctx, p *load.Program) {
 				bad = append(bad, mn)
 			}
 		}
-		// R17.5: path-sensitive form — every success return of a method lies on a path that consulted the mark
-		for _, mn := range mnames {
-			fn := ms[mn]
-			if mn == "Close" || fn.Object() == nil || !fn.Object().Exported() || !methodHasEffectOrResult(fn) || fn.Blocks == nil {
-				continue
-			}
+		// R17.5: path-sensitive form — every success return of a method lies on a path that consulted the mark.
+		// A call of another method of the receiver counts only if that method is itself checked on every success path
+		// (an unexported helper that answers from a cache before looking at the mark is not).
+		checkedMemo := map[*ssa.Function]int{} // 0 unknown, 1 in progress/assumed, 2 checked, 3 unchecked
+		var successChecked func(fn *ssa.Function) (bool, *ssa.Return, bool)
+		successChecked = func(fn *ssa.Function) (bool, *ssa.Return, bool) {
 			r := recvParam(fn)
 			eidx := ssax.ErrorResultIndex(fn.Signature)
 			var badRet *ssa.Return
@@ -499,14 +502,31 @@ func r17ClosedState(c *core.Ctx, p *load.Program) {
 							s.Counts["consulted"] = 1
 						}
 					case *ssa.Call:
-						if callee := ssax.StaticCallee(x); callee != nil && len(x.Call.Args) > 0 && x.Call.Args[0] == ssa.Value(r) && ms[callee.Name()] == callee {
-							s.Counts["consulted"] = 1
+						if callee := ssax.StaticCallee(x); callee != nil && len(x.Call.Args) > 0 && x.Call.Args[0] == ssa.Value(r) && ms[callee.Name()] == callee && callee != fn {
+							st := checkedMemo[callee]
+							if st == 0 {
+								checkedMemo[callee] = 1
+								if callee.Blocks != nil && ssax.ErrorResultIndex(callee.Signature) >= 0 {
+									okc, _, compl := successChecked(callee)
+									if okc && compl {
+										st = 2
+									} else {
+										st = 3
+									}
+								} else {
+									st = 3
+								}
+								checkedMemo[callee] = st
+							}
+							if st == 1 || st == 2 {
+								s.Counts["consulted"] = 1
+							}
 						}
 					}
 				},
 				End: func(s *ssax.PathState, last ssa.Instruction) {
 					ret, ok := last.(*ssa.Return)
-					if !ok || eidx >= len(ret.Results) {
+					if !ok || eidx < 0 || eidx >= len(ret.Results) {
 						return
 					}
 					ev := s.Resolve(ret.Results[eidx])
@@ -515,6 +535,17 @@ func r17ClosedState(c *core.Ctx, p *load.Program) {
 					}
 				},
 			})
+			return badRet == nil, badRet, complete
+		}
+		for _, mn := range mnames {
+			fn := ms[mn]
+			if mn == "Close" || fn.Object() == nil || !fn.Object().Exported() || !methodHasEffectOrResult(fn) || fn.Blocks == nil {
+				continue
+			}
+			_, badRet, complete := successChecked(fn)
+			_ = badRet
+			eidx := ssax.ErrorResultIndex(fn.Signature)
+			_ = eidx
 			k5 := tk + "." + mn + "|success-only-after-closed-check"
 			switch {
 			case !complete:
@@ -706,4 +737,45 @@ func nonNilGuardOfMethod(fn *ssa.Function, field string) *ssa.If {
 		return nil
 	}
 	return nil
+}
+
+// r17HandleOnly (R17.7)
+func r17HandleOnly(c *core.Ctx, p *load.Program) {
+	n := p.Named("os", "file")
+	if n == nil {
+		c.Hard("anchor: os.file")
+		return
+	}
+	ms := methodsOf(p, n)
+	var names []string
+	for k := range ms {
+		names = append(names, k)
+	}
+	sort.Strings(names)
+	for _, mn := range names {
+		fn := ms[mn]
+		if fn.Blocks == nil {
+			continue
+		}
+		key := "os.file." + mn + "|handle-only"
+		bad := ""
+		ssax.InstrsDeep(fn, func(_ *ssa.Function, ins ssa.Instruction) {
+			cl, ok := ins.(*ssa.Call)
+			if !ok {
+				return
+			}
+			callee := ssax.StaticCallee(cl)
+			if callee == nil || !isStdOSFunc(callee) || callee.Signature.Recv() != nil {
+				return
+			}
+			// a package-level os function taking a path
+			for _, a := range cl.Call.Args {
+				if isStr(a.Type()) {
+					bad = ssax.CallName(cl) + " at " + p.Pos(cl.Pos())
+				}
+			}
+		})
+		c.Check(bad == "", "R17.7", key, p.Pos(fn.Pos()), "acts through the held *os.File only",
+			fmt.Sprintf("%s calls %s, a by-name function of package os: on a closed handle the *os.File method fails with ErrClosed but the by-name call succeeds — the method returns nil after Close and changes whatever file has that name now", fname(fn), bad))
+	}
 }
